@@ -312,6 +312,31 @@ def coq_bytes(bs):
     return "[" + ";".join(str(int(b)) for b in bs) + "]%N"
 
 
+def coq_bytes_rle(bs):
+    """list N of bytes; long runs of one byte as `repeat`, long literals cut into pieces (coqc's parser is recursive)"""
+    bs = [int(b) for b in bs]
+    parts, lit, i = [], [], 0
+
+    def flush():
+        for k in range(0, len(lit), 800):
+            parts.append("[" + ";".join(str(b) for b in lit[k:k + 800]) + "]%N")
+        lit.clear()
+    while i < len(bs):
+        j = i
+        while j < len(bs) and bs[j] == bs[i]:
+            j += 1
+        if j - i >= 200:
+            flush()
+            parts.append("repeat %d%%N (N.to_nat %d%%N)" % (bs[i], j - i))
+        else:
+            lit.extend(bs[i:j])
+        i = j
+    flush()
+    if not parts:
+        return "[]%N"
+    return "(" + " ++ ".join(parts) + ")%list"
+
+
 def _coqc_shard(args):
     fn, wd = args
     rc, out = run(["coqc", "-q", "-noglob", "-Q", COQ, "TC", fn], timeout=1500, cwd=wd)
